@@ -430,6 +430,8 @@ Section Model.
   Definition write_doc (fn : str) (x : kvs) (d : dir) : dir := aset fn (File (JDoc (JObj x)) NOW) d.
 
   (* `if src.document != dst.document: with proxy.create_doc_backup(dst.document) as p: doc_sync(src.document, p)` *)
+  Definition backup_name (fn : str) : str := fn ++ [TILDE].
+
   Definition sync_doc (o : opts) (fn : str) (sdir ddir : dir) : wstate :=
     match o_docsync o with
     | DS_nosync | DS_copy => (ddir, None)
@@ -440,26 +442,31 @@ Section Model.
         if py_eq (JObj sdoc) (JObj ddoc) then (ddir, None)
         else
           let '(d', e) := apply_docsync ds sdoc ddoc dry in
-          let written := if kvs_eqb d' ddoc then ddir else write_doc fn d' ddir in
-          match ddoc with
-          | [] =>
+          (* every assignment through the synced dict rewrites the file *)
+          let put (base : dir) : dir := if kvs_eqb d' ddoc then base else write_doc fn d' base in
+          match ddoc, alookup fn ddir with
+          | _ :: _, Some (File c mt) =>
+              (* create_backup(fn): refuse if fn~ exists; _copy2(fn, fn~); on any exception _copy2(fn~, fn);
+                 finally _remove(fn~) — all three gated by dry_run *)
+              match alookup (backup_name fn) ddir with
+              | Some (File _ _) => (ddir, Some ERuntimeError)
+              | Some (Dir _) => (ddir, Some EOther)                 (* not modelled *)
+              | None =>
+                  if dry then (put ddir, e)
+                  else
+                    let worked := put (ddir ++ [(backup_name fn, File c mt)]) in
+                    match e with
+                    | None => (aremove (backup_name fn) worked, None)
+                    | Some x => (aremove (backup_name fn) (aset fn (File c mt) worked), Some x)
+                    end
+              end
+          | _, _ =>
               (* `not len(proxy)` or no file: in-memory backup.  roll-back = proxy.clear() (NOT gated by
                  dry_run) followed by proxy.update(backup) (gated) *)
               match e with
-              | None => (written, None)
+              | None => (put ddir, None)
               | Some x => (write_doc fn (if dry then [] else ddoc) ddir, Some x)
               end
-          | _ :: _ =>
-              if negb (has_file fn ddir) then (written, e)       (* unreachable: ddoc <> [] needs the file *)
-              else if has_file (fn ++ [TILDE]) ddir then (ddir, Some ERuntimeError)
-              else
-                match e with
-                | None => (written, None)
-                | Some x =>
-                    (* create_backup: _copy2(path_backup, path) restores the file — unless dry_run, where
-                       no backup exists and nothing is restored *)
-                    if dry then (written, Some x) else (ddir, Some x)
-                end
           end
     end.
 
